@@ -631,6 +631,15 @@ where
         }
     }
 
+    /// Are these the flags that [`TypecheckFlags::classless`] gives?
+    pub fn is_classless(&self) -> bool {
+        self.executing_class.is_none()
+            && !self.lhs_allow_optional_unwrap
+            && !self.force_rhs_to_be_unwrapped_lhs
+            && !self.signature_check
+            && !self.enforce_str_comptime_len_if_present
+    }
+
     pub const fn signature_check() -> Self {
         Self {
             executing_class: None,
@@ -1549,6 +1558,15 @@ impl TypeLayout {
             } else {
                 true
             };
+        }
+
+        // `==` on two list types has just compared their elements with the plain flags. When these are
+        // the flags of this call too, the list arms below would walk the same elements a second time -
+        // twice per level of nesting, so 2^depth comparisons for two deep types that differ at the core.
+        if flags.is_classless()
+            && matches!((lhs.as_ref(), rhs.as_ref()), (Self::List(_), Self::List(_)))
+        {
+            return false;
         }
 
         match (lhs.as_ref(), rhs.as_ref(), &flags.executing_class) {
